@@ -263,6 +263,10 @@ func (in *interp) instr(st *istate, ins ssa.Instruction) {
 				st.env[x] = symv("deref(nil)!", x.Type())
 				return
 			}
+			if v.pt != nil && v.pt.k == aConst {
+				st.env[x] = v.pt
+				return
+			}
 			st.env[x] = symv("*"+v.String(), x.Type())
 		case token.SUB:
 			if v.k == aConst {
